@@ -184,7 +184,10 @@ def closest_point(mesh, points):
 
     # however: same closest point on two different faces
     # find the best one and correct triangle ids if necessary
-    check_distance = np.ptp(two_dists, axis=1) < tol.merge
+    # the (squared) distances are compared relative to their size as
+    # an absolute tolerance treats clearly different distances
+    # as equal on small meshes and returns the further point
+    check_distance = np.ptp(two_dists, axis=1) < tol.merge * two_dists.max(axis=1)
     check_magnitude = np.all(np.abs(two_dists) > tol.merge, axis=1)
 
     # mask results where corrections may be apply
